@@ -24,6 +24,14 @@ CHECKS = {
             "closure BFS (state space closes: every stream length, every weak order pattern incl. both zeros) of the real selection methods x sort/max/min/arg reference for lengths 1..5 (7 thorough); macro-step exploration of <=2/3 constant/ramp segments for every length 1..=254",
             "The algorithms only compare and copy, so a closed exploration over an alphabet of n+1 ordered values plus both zeros covers every behaviour class of a length-n window for streams of any length; outputs are compared exactly (up to the sign of zero), SMM's exported window must hold the last n inputs.",
             "Trusted: the order-pattern lifting argument, the sort-based reference. Lengths above 7 are covered by segment streams only."),
+    "C05": ("DESIGN.md §6 C05, Appendix A, §12.5",
+            "exhaustive exploration of every indicator x independent reference formula (refmodel/src/ind, written from the doc comments): every candle sequence to depth 5-6 (6-7 thorough) over 6 candles + 2 state-dependent trend symbols for the default and a small-period configuration, to depth 4-5 with every MA kind in every MA slot and every source, the same candles in tiny units (x2^-40), 90-step (160) flat streams with <=1-2 deviations and sustained trends, every float parameter at 5 values on 300-step streams; containment of every returned value in value +- propagated radius",
+            "There is no test of any indicator in the suite; here every indicator runs in lock-step with a from-scratch reference on every enumerated stream, so a swapped high/low, a wrong source, a wrong period wired to the wrong average or a wrong initialisation shows on the first transition that distinguishes them. Where a recorded documentation-vs-code discrepancy exists, a second implementation-reading reference separates it from any other deviation, so a recorded finding does not hide new defects of the same indicator.",
+            "Trusted: the references are a reading of prose documentation (lines following the implementation are marked with a dagger in the files); the radius rules of DESIGN §4.2. Formula-undefined steps are exempt and counted."),
+    "C06": ("DESIGN.md §6 C06, Appendix A, §12.5",
+            "the same explorations as C05 with the second oracle: the documented signal rule evaluated on the values the indicator itself returned (bit-exact replication of the crate's Cross / CrossAbove / CrossUnder / ReversalSignal / Action::from semantics), per-slot counters of buy / sell / silent verdicts as vacuity guard",
+            "Signal logic is branchless boolean arithmetic where an inverted comparison compiles and passes everything; evaluating the documented rule on the indicator's own values makes the comparison exact (no rounding exemptions needed) on every explored stream.",
+            "Trusted: my reading of each '# N signals' doc section; detector semantics from C14. Slots that never fire in a run are listed in the evidence (signal_slots_not_fully_exercised)."),
     "C07": ("DESIGN.md §6 C07",
             "(1) closure BFS of the counter-carrying methods (reversal detectors, index/extremum/median selections, Past) over a 3-symbol alphabet - the product state contains the u8 counters, so the search runs through PeriodType::MAX and closes; (2) macro-step exploration: every script of <= 2 macro-steps 'feed L values of regime r' (L in 254,255,256,65 536 quick; up to 10^7 thorough; regimes volatile/flat/ramp/scale jump x2^20/negative) carries the REAL instance into a long history with the from-scratch definition compared at EVERY inner step (radius with the true t), then all micro-sequences of depth 1-2 from every state so reached; indicators: long-past instance vs a fresh instance primed with the recent window, in lock-step",
             "A closed product space is a proof for every stream length over the alphabet; macro-steps make histories of 10^5-10^7 steps states of the explored graph instead of something a unit test would have to sample.",
